@@ -96,9 +96,9 @@ Proof.
   unfold compute_stats, node_count, edge_count, etype_stats, etype_counts, live_edges. psimpl. rewrite EN, EE. reflexivity.
 Qed.
 
-Lemma StatsInv_step s o : BaseInv s -> LabInv s -> op_label_unflagged s o = false -> StatsInv s -> StatsInv (fst (step s o)).
+Lemma StatsInv_step s o : BaseInv s -> StatsInv s -> StatsInv (fst (step s o)).
 Proof.
-  intros B L Hs SI. destruct o; cbn [step].
+  intros B SI. destruct o; cbn [step].
   - (* CreateNode *) unfold do_create_node. psimpl.
     destruct (create_node_labels (lab_names s) (lab_index s) [] (next_node s) labels) as [[a b] c]. psimpl.
     intros D. psimpl. discriminate.
@@ -116,25 +116,10 @@ Proof.
   - apply (StatsInv_view s); try reflexivity. exact SI.
   - apply (StatsInv_view s); try reflexivity. exact SI.
   - apply (StatsInv_view s); try reflexivity. exact SI.
-  - (* AddLabel *)
-    cbn [op_label_unflagged step] in Hs. unfold do_add_label in *.
-    destruct (node_live s n) eqn:LV; [|exact SI].
-    destruct (get_or_create (lab_names s) l) as [names lid] eqn:G.
-    destruct (mem lid (match zget (node_labels s) n with Some x => x | None => [] end)) eqn:M; cbn [fst snd] in *.
-    + (* already labelled: the catalog cannot have grown *)
-      apply mem_In in M. destruct (zget (node_labels s) n) as [set|] eqn:E; [|destruct M].
-      destruct (l_nl s L n set E) as (_ & _ & Hb). specialize (Hb lid M).
-      destruct (get_or_create_spec _ _ _ _ G) as (_ & _ & _ & G4 & _).
-      assert (names = lab_names s) as -> by (destruct G4 as [->|[_ [_ ->]]]; [reflexivity|lia]).
-      apply (StatsInv_view s); try reflexivity. exact SI.
-    + rewrite andb_true_r in Hs. apply negb_false_iff in Hs. intros D. psimpl. congruence.
+  - (* AddLabel: the statistics are marked for recomputation (fix 2e121d0) *)
+    unfold do_add_label. cbn [fst]. intros D. psimpl. discriminate.
   - (* RemoveLabel *)
-    cbn [op_label_unflagged step] in Hs. unfold do_remove_label in *.
-    destruct (node_live s n) eqn:LV; [|exact SI].
-    destruct (find_pos l (lab_names s) 0) as [lid|]; [|exact SI].
-    destruct (zget (node_labels s) n) as [set|]; [|exact SI].
-    destruct (mem lid set); [|exact SI]. cbn [fst snd] in *.
-    rewrite andb_true_r in Hs. apply negb_false_iff in Hs. intros D. psimpl. congruence.
+    unfold do_remove_label. cbn [fst]. intros D. psimpl. discriminate.
   - unfold do_create_index. destruct (zget (pidx s) key); [exact SI|]. apply (StatsInv_view s); try reflexivity. exact SI.
   - unfold do_drop_index. destruct (zget (pidx s) key); [|exact SI]. apply (StatsInv_view s); try reflexivity. exact SI.
   - apply (StatsInv_view s); try reflexivity. exact SI.
@@ -154,27 +139,21 @@ Proof.
   rewrite IH. rewrite run_cons. apply orb_assoc.
 Qed.
 
-Lemma StatsInv_run b ops : hist_label_unflagged (init b) ops = false -> StatsInv (run (init b) ops).
+Lemma StatsInv_run b ops : StatsInv (run (init b) ops).
 Proof.
-  intros H.
-  assert (BaseInv (run (init b) ops) /\ LabInv (run (init b) ops) /\ StatsInv (run (init b) ops)) as (_ & _ & R); [|exact R].
-  apply (run_inv_hist (fun s => BaseInv s /\ LabInv s /\ StatsInv s) op_label_unflagged).
-  - intros s o (B & L & SI) Hs. split; [apply BaseInv_step; exact B|split; [apply LabInv_step; assumption|apply StatsInv_step; assumption]].
-  - split; [apply BaseInv_init|split; [apply LabInv_init|]]. intros D. cbn in D. discriminate.
-  - exact H.
+  assert (BaseInv (run (init b) ops) /\ StatsInv (run (init b) ops)) as (_ & R); [|exact R].
+  apply (run_inv (fun s => BaseInv s /\ StatsInv s)).
+  - intros s o (B & SI). split; [apply BaseInv_step; exact B|apply StatsInv_step; assumption].
+  - split; [apply BaseInv_init|]. intros D. cbn in D. discriminate.
 Qed.
 
-Lemma stats_after_refresh b ops : hist_label_unflagged (init b) ops = false ->
+Lemma stats_after_refresh b ops :
   let s := run (init b) (ops ++ [RefreshStats]) in stats_cur s = compute_stats s.
 Proof.
-  intros H. cbv zeta.
-  assert (hist_label_unflagged (init b) (ops ++ [RefreshStats]) = false) as H'.
-  { unfold hist_label_unflagged in *. rewrite hist_any_app, H. cbn. reflexivity. }
-  apply (StatsInv_run b _ H'). rewrite run_app. cbn [run fold_left step]. unfold do_refresh_stats.
+  cbv zeta. apply (StatsInv_run b _). rewrite run_app. cbn [run fold_left step]. unfold do_refresh_stats.
   destruct (stats_dirty (run (init b) ops)) eqn:D; cbn [fst]; psimpl; [reflexivity|exact D].
 Qed.
 
-(** * what [compute_stats] says about labels *)
 Lemma find_pos_shift x l i : find_pos x l (i + 1) = option_map (fun j => j + 1) (find_pos x l i).
 Proof.
   revert i. induction l as [|y r IH]; intros i; cbn [find_pos option_map]; [reflexivity|].
